@@ -137,7 +137,8 @@ pub fn targeted_fault(rng: &mut StdRng, fen: &str) -> String {
         3 => { // illegal character in placement
             let mut c: Vec<char> = f[0].chars().collect();
             let i = rng.gen_range(0..c.len());
-            c[i] = *['x', '9', '0', 'P' as u8 as char, 'é', 'Z', '.', '٣'].choose(rng).unwrap();
+            // includes characters that Unicode case folding maps onto the piece letters (KELVIN SIGN -> k, ...)
+            c[i] = *['x', '9', '0', 'P' as u8 as char, 'é', 'Z', '.', '٣', '\u{212A}', '\u{017F}', 'ｋ', 'Ｑ', 'к'].choose(rng).unwrap();
             if c[i] == 'P' { c[i] = 'y'; }
             f[0] = c.into_iter().collect();
         }
